@@ -88,7 +88,8 @@ Value& OpBIORExpression::value(Context& ctx) const
           return LVAL2(Value(Value::type_boolean), a1, a2);   /* null */
         case Type::BOOLEAN:
         {
-          if (!a2.isNull())
+          /* a1 is null or false: true wins, false needs a1 false, else null */
+          if (!a2.isNull() && (*a2.boolean() == true || !a1.isNull()))
             return LVAL2(Value(Bool(*a2.boolean())), a1, a2);
           return LVAL2(Value(Value::type_boolean), a1, a2);   /* null */
         }
